@@ -22,6 +22,17 @@ theorem Compat.symm {a b : Res} (h : Compat a b) : Compat b a :=
 theorem Compat.trans {a b c : Res} (h : Compat a b) (h' : Compat b c) : Compat a c :=
   ⟨h.name.trans h'.name, h.ty.trans h'.ty, h.acc.trans h'.acc, h.len.trans h'.len⟩
 
+/-- what `Result.merge` really asserts: same name and type, equal array lengths, and the
+    merged-in object accumulates values whenever `self` does -/
+structure CompatL (a b : Res) : Prop where
+  name : a.name = b.name
+  ty : a.ty = b.ty
+  acc : a.acc = true → b.acc = true
+  len : a.counts.length = b.counts.length
+
+theorem Compat.toL {a b : Res} (h : Compat a b) : CompatL a b :=
+  ⟨h.name, h.ty, fun e => by rw [← h.acc]; exact e, h.len⟩
+
 /-! ### list lemmas -/
 
 theorem incr_length (l : List Nat) (i : Nat) : (incr l i).length = l.length := by
@@ -89,6 +100,10 @@ theorem update_counts_of_ne_choice (r : Res) (o : Obs) (h : r.ty ≠ .choice) :
   cases hty : r.ty <;> simp only [] <;> repeat' split
   all_goals first | rfl | exact absurd hty h
 
+theorem compatL_update {a b : Res} (o : Obs) (h : CompatL a b) : CompatL a (update b o).1 :=
+  ⟨by rw [update_name]; exact h.name, by rw [update_ty]; exact h.ty,
+   by rw [update_acc]; exact h.acc, by rw [update_counts_length]; exact h.len⟩
+
 theorem compat_update {a b : Res} (o : Obs) (h : Compat a b) : Compat a (update b o).1 :=
   ⟨by rw [update_name]; exact h.name, by rw [update_ty]; exact h.ty,
    by rw [update_acc]; exact h.acc, by rw [update_counts_length]; exact h.len⟩
@@ -150,12 +165,15 @@ theorem fresh_of_compat {nm : String} {ty : Ty} {acc : Bool} {k : Nat} {a : Res}
 
 /-! ### merge -/
 
-theorem merge_ok {a b : Res} (h : Compat a b) : merge a b = (mergeCore a b, none) := by
+theorem merge_okL {a b : Res} (h : CompatL a b) : merge a b = (mergeCore a b, none) := by
   have hg : mergeGuard a b = none := by
-    simp [mergeGuard, h.ty, h.name, h.acc]
+    have := h.acc
+    cases ha : a.acc <;> simp_all [mergeGuard, h.ty, h.name]
   unfold merge mergeCore
   rw [hg]
   cases hty : a.ty <;> simp [addCounts, h.len]
+
+theorem merge_ok {a b : Res} (h : Compat a b) : merge a b = (mergeCore a b, none) := merge_okL h.toL
 
 theorem mergeM_ok {a b : Res} (h : Compat a b) : mergeM a b = .ok (mergeCore a b) := by
   simp [mergeM, merge_ok h]
@@ -182,14 +200,15 @@ theorem shaped_mergeCore {a b : Res} (ha : Shaped a) (hb : Shaped b) (h : Compat
   cases a.ty <;> simp [h1, h2]
 
 /-- the heart of the property: updating the merged object = merging the updated operand -/
-theorem update_mergeCore {a b : Res} (o : Obs) (hm : a.ty ≠ .misc) (h : Compat a b) :
+theorem update_mergeCore {a b : Res} (o : Obs) (hm : a.ty ≠ .misc) (h : CompatL a b) :
     (update (mergeCore a b) o).1 = mergeCore a (update b o).1 := by
   obtain ⟨hn, ht, ha, hl⟩ := h
   cases hty : a.ty
   · -- sum
     have hb : b.ty = .sum := by rw [← ht, hty]
-    cases hacc : a.acc <;>
-      simp [update, mergeCore, extendLists, hty, hb, hacc, ← ha, Rat.add_assoc, Nat.add_assoc]
+    cases hacc : a.acc
+    · simp [update, mergeCore, extendLists, hty, hb, hacc, Rat.add_assoc, Nat.add_assoc]
+    · simp [update, mergeCore, extendLists, hty, hb, hacc, ha hacc, Rat.add_assoc, Nat.add_assoc]
   · -- ratio
     have hb : b.ty = .ratio := by rw [← ht, hty]
     cases hot : o.t with
@@ -198,9 +217,11 @@ theorem update_mergeCore {a b : Res} (o : Obs) (hm : a.ty ≠ .misc) (h : Compat
     | some t =>
       by_cases h0 : t = 0
       · cases hacc : a.acc <;>
-          simp [update, mergeCore, extendLists, hty, hb, hot, h0, hacc, ← ha, Rat.add_assoc, Nat.add_assoc]
-      · cases hacc : a.acc <;>
-          simp [update, mergeCore, extendLists, hty, hb, hot, h0, hacc, ← ha, Rat.add_assoc, Nat.add_assoc]
+          simp [update, mergeCore, extendLists, hty, hb, hot, h0, hacc, Rat.add_assoc, Nat.add_assoc]
+      · cases hacc : a.acc
+        · simp [update, mergeCore, extendLists, hty, hb, hot, h0, hacc, Rat.add_assoc, Nat.add_assoc]
+        · simp [update, mergeCore, extendLists, hty, hb, hot, h0, hacc, ha hacc, Rat.add_assoc,
+            Nat.add_assoc]
   · exact absurd hty hm
   · -- choice
     have hb : b.ty = .choice := by rw [← ht, hty]
@@ -214,9 +235,11 @@ theorem update_mergeCore {a b : Res} (o : Obs) (hm : a.ty ≠ .misc) (h : Compat
           simp [update, hty', hb, hd, hlen, hi] <;>
           simp [mergeCore, extendLists, hty, hacc, Nat.add_assoc]
       | some i =>
-        cases hacc : a.acc <;>
-          simp [update, hty', hb, hd, hlen, hi] <;>
-          simp [mergeCore, extendLists, hty, hacc, ← ha, Nat.add_assoc, Rat.add_assoc, incr_zipWith]
+        cases hacc : a.acc
+        · simp [update, hty', hb, hd, hlen, hi]
+          simp [mergeCore, extendLists, hty, hacc, Nat.add_assoc, Rat.add_assoc, incr_zipWith]
+        · simp [update, hty', hb, hd, hlen, hi]
+          simp [mergeCore, extendLists, hty, hacc, ha hacc, Nat.add_assoc, Rat.add_assoc, incr_zipWith]
     · cases hacc : a.acc <;>
         simp [update, hty', hb, hd] <;>
         simp [mergeCore, extendLists, hty, hacc, Nat.add_assoc]
@@ -236,12 +259,12 @@ theorem mergeCore_fresh {a : Res} (hm : a.ty ≠ .misc) (hs : Shaped a) :
   · exact absurd rfl hm
   · cases acc <;> simp [mergeCore, extendLists, fresh, zipWith_add_zeros]
 
-theorem mergeCore_foldUpd {a b : Res} (ys : List Obs) (hm : a.ty ≠ .misc) (h : Compat a b) :
+theorem mergeCore_foldUpd {a b : Res} (ys : List Obs) (hm : a.ty ≠ .misc) (h : CompatL a b) :
     mergeCore a (foldUpd b ys) = foldUpd (mergeCore a b) ys := by
   induction ys generalizing b with
   | nil => rfl
   | cons o ys ih =>
-    rw [foldUpd_cons, foldUpd_cons, ih (compat_update o h), update_mergeCore o hm h]
+    rw [foldUpd_cons, foldUpd_cons, ih (compatL_update o h), update_mergeCore o hm h]
 
 /-- **monoid homomorphism**: accumulating `xs ++ ys` into a new object = accumulating `xs`
     and `ys` into two new objects and merging (all attributes) -/
@@ -254,7 +277,7 @@ theorem foldUpd_append_fresh (nm : String) (ty : Ty) (acc : Bool) (k : Nat) (hm 
   have hty : (foldUpd (fresh nm ty acc k) xs).ty ≠ .misc := by
     rw [← hc.ty]; simpa [fresh] using hm
   have hs : Shaped (foldUpd (fresh nm ty acc k) xs) := shaped_foldUpd xs (shaped_fresh _ _ _ _)
-  rw [foldUpd_append, mergeCore_foldUpd ys hty hc.symm]
+  rw [foldUpd_append, mergeCore_foldUpd ys hty hc.symm.toL]
   conv_lhs => rw [← mergeCore_fresh hty hs, fresh_of_compat hc]
 
 /-! ### validity: the script raises nothing -/
